@@ -462,3 +462,14 @@ def under_construction(c, rng, ctx):
     if ctx is not None and results:
         ctx.count('circuit_under_construction')
     return results
+
+
+def be_kwargs(be):
+    """Keyword arguments for a bit order: callers that want the default order simply leave the argument out - half of the
+    little-endian cases do (decided per case: CUR['omit_defaults']).  The monitors read an absent argument as the
+    signature's default."""
+    if not be and CUR.get('omit_defaults'):
+        if CUR.get('ctx') is not None:
+            CUR['ctx'].count('optional_argument_omitted')
+        return {}
+    return {'big_endian': be}
